@@ -51,6 +51,15 @@ CHECKS['C06'] = dict(
     note='trusted: TLC, Rings.tla; minimality / size-multiset clauses waived (counted) where TLC finds the recorded gap: two candidate cycles no larger than the largest basis ring sharing >= 3 bonds, or a dense cage',
     technique='TLC evaluation of a declarative cycle-basis specification over recorded ring perceptions (exhaustive small graphs)',
     design='5/C06')
+CHECKS['C04'] = dict(
+    text='Every atom environment of a bounded grid (organic-subset centres x charges x radical x bond multisets, plus every environment '
+         'named by an exception of any of the 118 elements) is built through add_atom/add_bond; corpus and exotic molecules are taken in '
+         'Kekule form. TLC evaluates (ii) a TLA+ interpreter of the exported rule tables written from their documented meaning (first match, '
+         'at-least neighbour patterns; what check_implicit admits), (i) a literal core valence model on its unambiguous domain, and the '
+         'molecular sums (check_valence set, formula, charge, radical flag, mass as a milli-dalton identity).',
+    note='trusted: TLC, Valence.tla; the rule tables themselves are exported from the working tree (their data is pinned by the core model only on B C N O F / lowest valence of Si P S halogens)',
+    technique='TLA+ valence model (literal core + interpreter of the exported rule tables) evaluated by TLC over an exhaustive environment grid',
+    design='5/C04')
 PENDING = {}
 
 
